@@ -338,6 +338,15 @@ impl Context {
                 fileids.insert(fileid);
             }
         }
+        // Merging drops tombstones, so every older file has to be merged along with the newest
+        // included file, otherwise a deleted value in an older file comes back after a restart
+        if let Some(&newest) = fileids.iter().next_back() {
+            for entry in self.stats.iter() {
+                if *entry.key() < newest {
+                    fileids.insert(*entry.key());
+                }
+            }
+        }
         Ok(fileids)
     }
 }
